@@ -61,6 +61,10 @@ Inductive unit_kind :=
                                  connection back (read off the source by the translator) *)
   | USelect                   (* load-balance selection *)
   | UMeta (miss : bool)       (* one table-meta lookup *)
+  | UMetaFail (cancelled : bool)
+                              (* a table-meta lookup that FAILS: cache miss whose meta-data load errors
+                                 (unknown table, no index, query error); cancelled = the context was
+                                 already cancelled, no connection is obtained at all *)
   | URefreshFixed             (* cache refresh tick that closes its connection *)
   | URefreshPinned.           (* cache refresh tick of the pinned tree: the connection is never closed *)
 
@@ -83,6 +87,7 @@ Definition journal (k : unit_kind) (o : outcome) : list ev :=
   | UAtPhase2 closed => if closed then bracket (RConn 1) [] else [Acq (RConn 1)]
   | USelect => []
   | UMeta _ => bracket (RConn 1) []
+  | UMetaFail cancelled => if cancelled then [] else bracket (RConn 1) []
   | URefreshFixed => bracket (RConn 1) []
   | URefreshPinned => [Acq (RConn 1)]
   end.
